@@ -4,6 +4,7 @@ import TakVerif.Impl.Alloc
 import TakVerif.Impl.Book
 import TakVerif.Impl.Bot
 import TakVerif.Impl.BotCompose
+import TakVerif.Impl.BotLevel
 import Driver.SolverState
 import TakVerif.Impl.Serve
 namespace Driver
@@ -21,7 +22,7 @@ structure St where
   -- C04 (opening book) session: the book built by the last `book`/`realbook` op
   symBook : Option Tak.Book := none
   bot : Option Tak.Bot.Session := none      -- C07: the bot game of the current `case`
-  cbot : Option Tak.Compose.Session := none  -- C07 composed: the bot game (real Friendly / Taktician as Bot) of the current `case`
+  cbot : Option Tak.Compose.SessionL := none  -- C07 composed: the bot game (real Friendly / Taktician as Bot) of the current `case`
   solvers : SolverSession := {}           -- C06: cache of the last exactly solved game graph
   serve : Tak.Serve.Server Tak.Move := {}  -- C05serve/C15serve: the one server object of the current `case`
 deriving Inhabited
